@@ -162,11 +162,15 @@ func c20Build(w *mon.W, k int, decoded bool) *c20Shared {
 	for i := 0; i < 2+r.IntN(6); i++ {
 		items.L = append(items.L, ref.Int(int64(1+r.IntN(5))))
 	}
-	argsV.M = append(argsV.M, ref.KV{K: "zitems", V: items}, ref.KV{K: "ztext", V: ref.Str("héllo wörld, " + fmt.Sprint(k))},
+	// (the three are added in ascending ALPHABETICAL order, which is not the shortest-first order
+	// of the canonical encoding: with few or no other keys the token's key list is 'already
+	// sorted' in one sense and not in the other)
+	argsV.M = append(argsV.M, ref.KV{K: "zitems", V: items},
 		// a map-valued argument whose keys come in another order alphabetically than length-first
 		// (written here in the length-first order a decoder gives them, so that a constructed token and
 		// its decoded copy print alike)
-		ref.KV{K: "zmap", V: ref.Map(ref.E("b", ref.Int(1)), ref.E("c", ref.Map(ref.E("z", ref.Int(1)), ref.E("yy", ref.List(ref.Map(ref.E("k", ref.Int(1)), ref.E("jj", ref.Int(2))))))), ref.E("aa", ref.Int(2)))})
+		ref.KV{K: "zmap", V: ref.Map(ref.E("b", ref.Int(1)), ref.E("c", ref.Map(ref.E("z", ref.Int(1)), ref.E("yy", ref.List(ref.Map(ref.E("k", ref.Int(1)), ref.E("jj", ref.Int(2))))))), ref.E("aa", ref.Int(2)))},
+		ref.KV{K: "ztext", V: ref.Str("héllo wörld, " + fmt.Sprint(k))})
 	sc.Args = argsV
 	// policies over the arguments on every link (true statements)
 	var paths []gen.Path
